@@ -389,6 +389,88 @@ func c15SeqScenarios(tier string) []scenario {
 	return scs
 }
 
+// Pongs answered while a compressed message is being streamed (one data frame
+// of it already on the wire): the C05 pinger/writer harness with a first chunk
+// larger than one deflate block, judged by the wire validator (a Pong is a
+// well-formed control frame carrying the Ping's payload).
+func c15WireScenarios(tier string) []scenario {
+	var scs []scenario
+	p := 1
+	if tier == "thorough" {
+		p = 2
+	}
+	for _, k := range []connCfg{{Client: false, Flate: true, Thr: 1}, {Client: true, Flate: true, Thr: 1, CNCT: true, SNCT: true}} {
+		prm := c05Params{Prop: "C15", Name: "pong-during-compressed-stream", K: k, Writers: [][]wop{{{Stream: true, Chunks: []int{70000, 10}}}}, Pinger: true}
+		scs = append(scs, scenario{Name: prm.Name + "/" + k.String(), Cfg: explore.Config{P: p, Horizon: 60e9}, Setup: c05Setup(prm)})
+	}
+	return scs
+}
+
+// A Ping queued behind another writer's frame; that writer finishes normally,
+// then the transport accepts nothing more, so the Ping frame itself is stuck
+// when the Ping's context (1 s) ends: Ping must return an error then.
+func c15StallSetup(k connCfg) func(c *fw.Ctx, name string) explore.Setup {
+	return func(c *fw.Ctx, name string) explore.Setup {
+		return func(w *vs.World) func(bool) {
+			p := vpipe.New()
+			hdr := 2
+			if k.Client {
+				hdr = 6
+			}
+			p.Window = hdr + 50 // the 100-byte message's frame gets half way
+			var pingErr, writeErr error
+			var pingDone, writeDone bool
+			var pingAt int64
+			w.GoHarness("main", true, func() {
+				conn := mkConn(p, k)
+				bg := vctx.Background()
+				conn.CloseRead(bg)
+				w.GoHarness("writer", true, func() {
+					writeErr = conn.Write(bg, 2, fill(0xA7, 100))
+					writeDone = true
+				})
+				w.GoHarness("pinger", true, func() {
+					p.WaitOut("frame-begun", func(out []byte) bool { return len(out) > 0 })
+					ctx, cancel := vctx.WithTimeout(bg, time.Second)
+					defer cancel()
+					t0 := w.Now
+					pingErr = conn.Ping(ctx)
+					pingAt = w.Now - t0
+					pingDone = true
+				})
+				w.GoHarness("peer", false, func() {
+					// let the data frame through once the Ping is queued behind it; afterwards
+					// the peer stops reading for good
+					vtime.Sleep(100 * time.Millisecond)
+					p.Drain(50)
+				})
+			})
+			return func(complete bool) {
+				if !complete {
+					return
+				}
+				locus := "stalled-behind-writer/" + k.String()
+				if w.Panic != "" {
+					violate(c, w, name, "C15/panic/"+locus, w.Panic)
+					return
+				}
+				c.OutcomeStr(fmt.Sprintf("%s|ping=%v/%v@%dms|write=%v/%v", name, pingDone, pingErr != nil, pingAt/1e6, writeDone, writeErr != nil))
+				if !pingDone {
+					violate(c, w, name, "C15/ping-never-returns/"+locus, fmt.Sprintf("the Ping's context ended after 1 s while its frame was stuck in the transport; Ping never returned: stuck %v", stuckTasks(w)))
+					return
+				}
+				if pingErr == nil {
+					violate(c, w, name, "C15/ping-nil-without-own-pong/"+locus, "Ping returned nil although the peer never answered")
+					return
+				}
+				if pingAt > int64(2500*time.Millisecond) {
+					violate(c, w, name, "C15/ping-outlives-context/"+locus, fmt.Sprintf("Ping returned %v after it was called; its context ended after 1 s", time.Duration(pingAt)))
+				}
+			}
+		}
+	}
+}
+
 func c15Scenarios(tier string) []scenario {
 	var scs []scenario
 	cfg := explore.Config{P: 1, T: 0, E: 0, Horizon: 60e9}
@@ -414,7 +496,16 @@ func c15Scenarios(tier string) []scenario {
 			}
 		}
 	}
-	return append(scs, c15SeqScenarios(tier)...)
+	scs = append(scs, c15SeqScenarios(tier)...)
+	scs = append(scs, c15WireScenarios(tier)...)
+	pst := 2
+	if tier == "thorough" {
+		pst = 3
+	}
+	for _, k := range []connCfg{{Client: false}, {Client: true}} {
+		scs = append(scs, scenario{Name: "stalled-behind-writer/" + k.String(), Cfg: explore.Config{P: pst, T: 1, Horizon: 60e9}, Setup: c15StallSetup(k)})
+	}
+	return scs
 }
 
 // c15RaceScenarios: concurrent Pings under the race detector. Payload
